@@ -172,7 +172,48 @@ def emitted_value_model(rep, cases, ra, g):
                 rep.violation('document model with values and implementation disagree on the re-parse of an emitted <%s>: %s' % (d['tag'], key),
                               {'correspondence': 'parse_musicxml + to_string on the library\'s own output <-> DocValTables.vparse / vemit', 'emitted_document': r['s1'][:3000],
                                'model': mr, 'implementation': impl}, found_input=False)
-    rep.coverage['emitted_document_value_model'] = dict(n, emitted_documents=len(docs), differences=bad)
+    # whatever the second emission spells differently from the first must still be in the lexical space of the declared type
+    # ("up to numeric spelling" tolerates 4 vs 4.0 on a decimal type, not 4.0 on an integer type)
+    def etype(tag):
+        tys = g['elements'].get(tag)
+        if not tys:
+            return None, None
+        t = tys[0][6:] if tys[0].startswith('<anon>') else tys[0]
+        if t in g['ctypes']:
+            return g['ctypes'][t]['simple'], {a[0]: a[1] for a in g['ctypes'][t]['attrs']}
+        return t, {}
+    probes = []
+
+    def walk2(x, y, top):
+        if x[0] != y[0] or len(x[3]) != len(y[3]):
+            return
+        tt, at = etype(x[0])
+        if tt and x[1] != y[1] and not x[3]:
+            probes.append((tt, y[1], x[0], x[1], top))
+        for (n1, v1), (n2, v2) in zip(x[2], y[2]):
+            if n1 == n2 and v1 != v2 and at and at.get(n1):
+                probes.append((at[n1], v2, x[0] + '/@' + n1, v1, top))
+        for cx, cy in zip(x[3], y[3]):
+            walk2(cx, cy, top)
+    for d, r in zip(docs, back):
+        if 's2' in r:
+            try:
+                walk2(c09.vtree_of_node(d), c09.vtree_of_text(r['s2']), r)
+            except Exception:
+                pass
+    if probes:
+        m2 = extract.Model()
+        try:
+            xv = m2.raw(['xv %s %s' % (t, ','.join(str(ord(ch)) for ch in v)) for t, v, _, _, _ in probes])
+        finally:
+            m2.close()
+        seen_t = set()
+        for (t, v, where, before, r), ok in zip(probes, xv):
+            if ok != '1' and (t, where) not in seen_t:
+                seen_t.add((t, where))
+                rep.violation('after one round trip <%s> is emitted as %r (it was %r), which is not in the lexical space of %s' % (where, v, before, t),
+                              {'first_emission': r['s1'][:2500], 'second_emission': r['s2'][:2500], 'where': where, 'type': t, 'before': before, 'after': v})
+    rep.coverage['emitted_document_value_model'] = dict(n, emitted_documents=len(docs), differences=bad, respelt_values_judged=len(probes))
 
 
 def replay(path):
